@@ -71,27 +71,17 @@ mod verif_kani_branching {
     value_selector_full_range!(vs_out_domain_min, OutDomainMin);
     value_selector_full_range!(vs_out_domain_max, OutDomainMax);
 
-    /// Selectors which scan the domain: bounded stand-in (interval domain, width <= 3, lower bound one of eight
-    /// values at and around the ends of the i32 range and zero).  A fully symbolic lower bound made each of
-    /// these harnesses run for more than 45 minutes.
+    /// Selectors which scan the domain: bounded stand-in (interval domain, width <= 2, any lower bound).
+    /// (Width 3 took each of these harnesses more than 45 minutes of CBMC time on the current tree.)
     macro_rules! value_selector_small_width {
         ($name:ident, $sel:expr) => {
             #[kani::proof]
-            #[kani::unwind(7)]
+            #[kani::unwind(6)]
             fn $name() {
                 let mut assignments = Assignments::default();
-                let (which, w): (u8, i32) = kani::any();
-                kani::assume(1 <= w && w <= 3);
-                let lb: i32 = match which % 8 {
-                    0 => i32::MIN,
-                    1 => i32::MIN + 1,
-                    2 => -3,
-                    3 => -1,
-                    4 => 0,
-                    5 => 1,
-                    6 => i32::MAX - 4,
-                    _ => i32::MAX - 3,
-                };
+                let (lb, w): (i32, i32) = kani::any();
+                kani::assume(1 <= w && w <= 2);
+                kani::assume(lb <= i32::MAX - w);
                 let ub = lb + w;
                 let x = assignments.grow(lb, ub);
                 let mut rng = AnyRandom;
@@ -103,12 +93,12 @@ mod verif_kani_branching {
             }
         };
     }
-    value_selector_small_width!(vs_in_domain_middle_w3, InDomainMiddle);
-    value_selector_small_width!(vs_in_domain_median_w3, InDomainMedian);
-    value_selector_small_width!(vs_in_domain_interval_w3, InDomainInterval);
-    value_selector_small_width!(vs_in_domain_random_w3, InDomainRandom);
-    value_selector_small_width!(vs_out_domain_median_w3, OutDomainMedian);
-    value_selector_small_width!(vs_out_domain_random_w3, OutDomainRandom);
+    value_selector_small_width!(vs_in_domain_middle_w2, InDomainMiddle);
+    value_selector_small_width!(vs_in_domain_median_w2, InDomainMedian);
+    value_selector_small_width!(vs_in_domain_interval_w2, InDomainInterval);
+    value_selector_small_width!(vs_in_domain_random_w2, InDomainRandom);
+    value_selector_small_width!(vs_out_domain_median_w2, OutDomainMedian);
+    value_selector_small_width!(vs_out_domain_random_w2, OutDomainRandom);
 
     #[kani::proof]
     #[kani::unwind(3)]
